@@ -804,7 +804,7 @@ func (fr *Frame) exec(in ssa.Instruction) {
 		for _, a := range x.Call.Args {
 			args = append(args, fr.get(a))
 		}
-		d := deferred{call: &x.Call, args: args, pos: x.Pos(), ins: x}
+		d := deferred{call: &x.Call, args: args, pos: x.Pos(), ins: x, cond: fr.curR}
 		if !x.Call.IsInvoke() {
 			d.fnv = fr.get(x.Call.Value)
 		} else {
@@ -816,7 +816,25 @@ func (fr *Frame) exec(in ssa.Instruction) {
 		ds := fr.cur.defers
 		fr.cur.defers = nil
 		for i := len(ds) - 1; i >= 0; i-- {
-			fr.callDeferred(ds[i])
+			d := ds[i]
+			if d.cond == "" || d.cond == "true" || d.cond == fr.curR || d.cond == fr.entryR {
+				fr.callDeferred(d)
+				continue
+			}
+			// a defer statement on a conditional path: its call runs only where that path was taken
+			before := *fr.cur
+			saveR := fr.curR
+			fr.curR = vc.define("R.defer", "Bool", and(saveR, d.cond))
+			fr.callDeferred(d)
+			after := *fr.cur
+			fr.curR = saveR
+			merged := before
+			merged.heap = vc.heapMerge([]string{d.cond}, []*Heap{after.heap, before.heap})
+			if after.now != before.now {
+				merged.now = vc.define("now", "Int", ite(d.cond, after.now, before.now))
+			}
+			merged.defers = nil
+			fr.cur = &merged
 		}
 	case *ssa.Go:
 		fr.goStmt(x)
